@@ -299,6 +299,17 @@ def _run_graph(case, obs, budget=100_000):  # observed maximum on the unchanged 
             r.shuffle(adj[k])
             if case.get("tuple_adj"):
                 adj[k] = tuple(adj[k])
+        if ref[2] == 1 and n >= 3 and r.random() < 0.2:
+            # a pendant node that is listed only where it hangs (no key of its own): still a node of the graph
+            deg = {}
+            for u, v, w in edges:
+                if u != v:
+                    deg[u] = deg.get(u, 0) + 1
+                    deg[v] = deg.get(v, 0) + 1
+            leaves = [i for i in range(n) if deg.get(i) == 1 and i != case["start"] and labs[i] != next(iter(adj))]
+            if leaves:
+                adj.pop(labs[r.choice(leaves)])
+                obs.event("mst.prim-node-only-as-neighbour")
         shared_adj = dict(adj)  # one dict object for both prim calls: callers try several start nodes on one graph
         for start in ("given", "none"):
             kw = {"start": _fresh(labs[case["start"]])} if start == "given" else {}
